@@ -179,3 +179,12 @@ package ice
 //@   ensures wrong-size-rejected: attrHas(m, stun.AttrDtlsInStunAck) && (attrLen(m, stun.AttrDtlsInStunAck) > 16 || attrLen(m, stun.AttrDtlsInStunAck) % 4 != 0) ==> result != nil
 //@   ensures decodes-each-value: attrHas(m, stun.AttrDtlsInStunAck) && attrLen(m, stun.AttrDtlsInStunAck) <= 16 && attrLen(m, stun.AttrDtlsInStunAck) % 4 == 0 ==> result == nil && 4 * len(*a) == attrLen(m, stun.AttrDtlsInStunAck) && forall k int :: 0 <= k && k < len(*a) ==> (*a)[k] == attrBE32(m, stun.AttrDtlsInStunAck, 4*k)
 //@   ensures error-keeps-value: result != nil ==> *a == old(*a)
+
+// Parsing arbitrary text never panics: every position the parser passes on to a token reader lies inside
+// the text (preconditions of the readers) and its own indexing and slicing is in bounds.
+//@ func UnmarshalCandidate
+//@   props C16
+//@ func tryReadRelativeAddrs
+//@   props C16
+//@   requires in-range: 0 <= start && start <= len(raw)
+//@   ensures position-stays-inside-the-text: err == nil ==> start <= pos && pos <= len(raw)
